@@ -1322,18 +1322,19 @@ func (s *Set) IsSubset(other Iterator) (bool, error) {
 }
 
 func (s *Set) Intersection(other Iterator) (Value, error) {
-	intersect := new(Set)
+	// Collect the elements of other, then select from s in s's
+	// order: the result preserves the order of the left operand.
+	rhs := new(Set)
 	var x Value
 	for other.Next(&x) {
-		found, err := s.Has(x)
-		if err != nil {
-			return nil, err
+		if err := rhs.Insert(x); err != nil {
+			return nil, err // unhashable
 		}
-		if found {
-			err = intersect.Insert(x)
-			if err != nil {
-				return nil, err
-			}
+	}
+	intersect := new(Set)
+	for e := s.ht.head; e != nil; e = e.next {
+		if found, _ := rhs.Has(e.key); found {
+			intersect.Insert(e.key) // can't fail
 		}
 	}
 	return intersect, nil
